@@ -62,7 +62,7 @@ def fcut_between(da, frac):
     """A frequency strictly between two grid nodes (label-based, independent of storage order)."""
     f = _fsorted(da)
     i = min(len(f) - 2, max(0, int(frac * (len(f) - 1))))
-    return float(0.5 * (f[i] + f[i + 1]))
+    return float(f[i] + 0.37 * (f[i + 1] - f[i]))
 
 
 def fnode(da, frac):
